@@ -38,3 +38,10 @@ Theorem c03_unknown_never_good : forall p d0 c n,
   db_get (rp_db r) c (lookup_name c n) = None ->
   rp_status r <> exit_GOOD.
 Proof. exact unknown_makes_status_nonzero. Qed.
+
+(* literals the model repeats from the source are the ones the translator extracts from the current source (gen/Tables.v) *)
+From VGen Require Import Tables.
+From VModel Require Import Rating.
+From VProofs Require Import TieProofs.
+Theorem c03_tie_unknown_text : unknown_text = src_unknown_text.
+Proof. exact tie_unknown_text. Qed.
